@@ -263,10 +263,14 @@ CHECKS["C18"] = {
     "level_note": "Leaks while a fault is being injected are not judged (the statement asks for no crash, corruption, double free or use-after-free). zlib's internal allocations are reached only "
                   "through inflateInit2_ returning Z_MEM_ERROR.",
     "design_ref": "DESIGN.md §6 C18",
-    "rule": "corpus item x cfg x chunking x k in 1..N (N measured per item); distinct = distinct (callback trace, call count, final statuses) outcomes",
-    "bounds": {"quick": "all single faults; pairs (window 40) on the first 40 items", "thorough": "pairs on every item < 600 bytes"},
-    "assumptions": ["corpus of mc/corpus.c + test/files/*.t"],
-    "jobs": lambda tier: [J("faultmc", "asan")],
+    "rule": "corpus item x cfg x chunking x k in 1..N (N measured per item); plus cutmc edits --faults: every base exchange / edited history x every schedule with <= 1 preemption x k in 1..N; "
+            "distinct = distinct (callback trace, call count, final statuses) outcomes",
+    "bounds": {"quick": "all single faults; pairs (window 40) on the first 40 items; edits: 22 bases (no edit) under every schedule with <= 1 preemption, and every 1-edit history in the default schedule",
+               "thorough": "pairs on every item < 600 bytes; edits: every 1-edit history under every schedule with <= 1 preemption (1.4e7 fault executions)"},
+    "assumptions": ["corpus of mc/corpus.c + test/files/*.t", "token pools and bases of the edits mode (mc/cutmc.c)"],
+    "jobs": lambda tier: [J("faultmc", "asan")] + ([J("cutmc", "asan", ["--mode", "edits", "--faults", "1", "--edits", "0", "--preempt", "1"]),
+                                                      J("cutmc", "asan", ["--mode", "edits", "--faults", "1", "--edits", "1", "--preempt", "0"])] if tier == "quick" else
+                                                     [J("cutmc", "asan", ["--mode", "edits", "--faults", "1", "--edits", "1", "--preempt", "1"])]),
 }
 
 
@@ -493,7 +497,7 @@ ENGINES = [
     {"name": "pump", "path": "mc/pump.c", "serves_properties": ["C08"], "kind_free_text": "E6: pump-shape enumeration with a trace-pc-guard work meter"},
     {"name": "decompmc", "path": "mc/decompmc.c", "serves_properties": ["C07"], "kind_free_text": "E1 on compressed bodies: zlib/lzma generators x cut sets, bomb-bound and layer oracles"},
     {"name": "enum_c12", "path": "mc/enum_c12.c", "serves_properties": ["C12"], "kind_free_text": "E3: exhaustive raw paths x 776 decoder configurations vs reference pipeline"},
-    {"name": "cutmc", "path": "mc/cutmc.c", "serves_properties": ["C01", "C02", "C03", "C04", "C06", "C10", "C16"], "kind_free_text": "E1: stateless deviation-bounded explorer of segmentation / generated grammar on the real code"},
+    {"name": "cutmc", "path": "mc/cutmc.c", "serves_properties": ["C01", "C02", "C03", "C04", "C05", "C06", "C09", "C10", "C16", "C18"], "kind_free_text": "E1: stateless deviation-bounded explorer of segmentation / generated grammar on the real code"},
 ]
 
 if __name__ == "__main__":
